@@ -809,7 +809,10 @@ class Executor:
                 return v.z != 0
             if isinstance(v.z.sort(), z3.ArraySortRef):
                 return nonempty(v.z, v.z.sort().domain())
-            return z3.BoolVal(True)  # atoms are assumed truthy names (non-empty strings / objects)
+            if v.z.sort() == Atom:
+                # a label may be falsy (0, "", ()): which ones are is not modelled, so `if label:` splits the path
+                return z3.Function("label_truthy", Atom, B)(v.z)
+            return z3.BoolVal(True)
         if isinstance(v, Coll):
             if v.items is not None:
                 return z3.BoolVal(len(v.items) > 0)
@@ -1748,6 +1751,9 @@ class Executor:
             z = self.contains(b, a, st)
             return z if isinstance(op, ast.In) else z3.Not(z)
         if isinstance(op, (ast.Is, ast.IsNot)):
+            for x_, y_ in ((a, b), (b, a)):
+                if isinstance(y_, NoneV) and isinstance(x_, Scalar) and getattr(x_, "none_if", None) is not None:
+                    return x_.none_if if isinstance(op, ast.Is) else z3.Not(x_.none_if)   # optional value of an opaque getter
             if isinstance(a, NoneV) or isinstance(b, NoneV):
                 r = isinstance(a, NoneV) and isinstance(b, NoneV)
             else:
@@ -1988,6 +1994,20 @@ class Executor:
         o = self.ev(node.value, st)
         if isinstance(node.slice, ast.Slice):
             items = o.items if isinstance(o, (TupleV, Coll)) else (val_of(o.z).items if isinstance(o, Scalar) and is_tuple_sort(o.z.sort()) else None)
+            if items is None and isinstance(o, Coll) and o.kind in ("list", "tuple") and node.slice.upper is None and node.slice.step is None \
+                    and isinstance(node.slice.lower, ast.Constant) and isinstance(node.slice.lower.value, int) and node.slice.lower.value >= 0:
+                # seq[k:] of an abstract sequence: shifted sequence view
+                k = node.slice.lower.value
+                at, idx = self.seq_of(o, st)
+                n = o.len_z
+                n2 = z3.If(n - k >= 0, n - k, z3.IntVal(0))
+                y, i_ = fresh("y", o.esort), fresh("i", I)
+                r = Coll(o.kind, o.esort, z3.Lambda([y], z3.Exists([i_], z3.And(k <= i_, i_ < n, at(i_) == y))), nodup=False)
+                kk = next(_fresh)
+                idx2 = z3.Function(f"idx!{kk}", o.esort, I)
+                st.assume(z3.ForAll([y], z3.Implies(r.mem[y], z3.And(0 <= idx2(y), idx2(y) < n2, at(idx2(y) + k) == y))))
+                r.len_z, r.seq = n2, ((lambda j, at=at, k=k: at(j + k)), idx2)
+                return r
             if items is None:
                 raise Unsupported("slice of an abstract sequence")
             lo = ast.literal_eval(node.slice.lower) if node.slice.lower is not None else None
@@ -2445,7 +2465,19 @@ class Executor:
             r.len_z = z3.If(n >= 0, n, z3.IntVal(0))
             return r
         if name == "isinstance":
+            r = self.lib.isinstance_hook(self, args[0], node.args[1], st)
+            if r is not None:
+                return Scalar(r)
             return Scalar(z3.BoolVal(self.isinstance_(args[0], node.args[1], st)))
+        if name == "enumerate" and len(args) == 1 and isinstance(args[0], Coll) and args[0].kind in ("list", "tuple") and args[0].items is None:
+            # enumerate(seq) over an abstract sequence: the pairs (i, seq[i])
+            c = args[0]
+            at, _ = self.seq_of(c, st)
+            ps = tuple_sort([I, c.esort])
+            p = fresh("p", ps)
+            i0 = ps.accessor(0, 0)(p)
+            r = Coll("iter", ps, z3.Lambda([p], z3.And(0 <= i0, i0 < c.len_z, ps.accessor(0, 1)(p) == at(i0))), nodup=True)
+            return r
         if name == "len":
             v = args[0]
             if isinstance(v, (Coll, TupleV)) and v.items is not None:
